@@ -1200,6 +1200,7 @@ func TestProp(t *testing.T) {
 		hx.NewSub("props_tree", 2000, 15000, genPropsTree, checkPropsTree),
 		hx.NewSub("csv_raw", 2000, 15000, genCSVRaw, checkCSVRaw),
 		hx.NewSub("lua_yaml", 2000, 15000, genLuaYAML, checkLuaYAML),
+		hx.NewSub("lua_keys", 2500, 20000, genLuaKeys, checkLuaKeys),
 		hx.NewSub("xml_prefs", 2000, 15000, genXMLPrefs, checkXMLPrefs),
 		hx.NewSub("pairs", 1500, 10000, func(t *rapid.T) PairCase { return PairCase{Doc: genLuaDoc(t, 3).JSON()} }, checkPairs),
 	)
